@@ -180,7 +180,8 @@ class Scenario:
             if mode:
                 self.plan[(k, ver)] = (mode, held, go)
         r = self.request(w, k, headers=[("Cache-Control", "no-cache")], started=started)
-        held.set()
+        if held:
+            held.set()
         if r is None:
             return "U=none"
         v, bad = self.check(r, k) if r["status"] == 200 else ("-", "")
